@@ -285,6 +285,11 @@ def run(chk, tier):
     db = D.load("checks")
     from ..rules import params as _PR
     _PR.check(chk, db, ['_string_view/', '_string/char_traits'], floor=40)
+    from ..rules import iters as _ITX
+    _ITX.reverse_index_area(chk, db, ['_string_view/', '_string/char_traits'])      # IT4i: downward index scans reach index 0
+    from ..rules import sibs as _SB
+    _SB.check(chk, db, ['_string_view/', '_string/char_traits'])      # SIB: cv/ref-qualified overloads of one member agree
+    _SB.positive_control(chk)
     plain = D.load("plain")
     with open(c05.SPEC) as fh:
         table = json.load(fh)["entries"]
